@@ -5,6 +5,8 @@ package hapsim
 
 import (
 	"math/rand/v2"
+	"os"
+	"strings"
 )
 
 // Profile builds the configuration of run number i of a batch.
@@ -53,6 +55,19 @@ func profileByName(prop, name string) *Profile {
 		}
 	}
 	return nil
+}
+
+// avoidFlags returns the constraints requested by the driver (HAPSIM_AVOID).
+func avoidFlags() ([]string, map[string]bool) {
+	var list []string
+	m := map[string]bool{}
+	for _, a := range strings.Split(os.Getenv("HAPSIM_AVOID"), ",") {
+		if a = strings.TrimSpace(a); a != "" {
+			list = append(list, a)
+			m[a] = true
+		}
+	}
+	return list, m
 }
 
 func cfgRng(seed uint64) *rand.Rand { return rand.New(rand.NewPCG(seed, 0x63666772)) }
